@@ -68,6 +68,12 @@ class C12(Prop):
         out.append({'mode': 'listen', 'latency': 0.1, 'fail': 'refused', 'poll': 5, 'ports': [
             {'id': 'p1', 'type': 'number', 'value': 42, 'writable': True, 'enabled': True, 'custom': 'green'}],
             'steps': [['rvalue', 'p1', 7], ['rremove', 'p1'], ['check']]})
+        # a consumer's write answered while the listen handler is suspended in the value fetch of a just-added port:
+        # the (older) port-update of the same batch is handled after the write's answer
+        out.append({'mode': 'listen', 'latency': 0.1, 'fail': 'refused', 'poll': 1, 'ports': [
+            {'id': 'p1', 'type': 'number', 'value': 50, 'writable': True, 'enabled': True, 'custom': 'green'}],
+            'steps': [['radd', 'x1', 'number', 2], ['rattr', 'p1', 'display_name', 'r1'], ['mvalue', 'p1', 17],
+                      ['wait', 2], ['check']]})
         return out
 
     def gen(self, rng, tier):
